@@ -1,3 +1,520 @@
-import Kurbo.Quads
+import Proofs.Lemmas.C09
+import Proofs.Lemmas.C09Real
+import Proofs.Lemmas.C09Discharge
+/-! # C09 – nearest point
+
+Property: "For every segment, point `p` and accuracy `a`, `nearest` returns a parameter in [0,1] and a squared distance
+whose square root is within `a` of the true minimum distance from `p` to the segment.  The curve point at the returned
+parameter realises that minimum to within `2a`."
+
+Notation (helper definitions live in namespace `Kurbo.C09`, files `Proofs/Lemmas/C09*.lean`):
+`dist2 p q = (p.x-q.x)² + (p.y-q.y)²`, `pdist p q = √(dist2 p q)`, `curveDist f p = inf_{t∈[0,1]} pdist p (f t)`;
+`quadNearestCoeffs q p = (c0,c1,c2,c3)` and `quadNearestRoots q p = solveCubic c0 c1 c2 c3` are the coefficients /
+the root list built by `QuadBez.nearest` (`rfl`-equal to the model, `quad_nearest_eq_ofRoots`),
+`quadCritPoly q p x = c0 + c1 x + c2 x² + c3 x³`; `quadCands q roots` is the list of `(t, point)` pairs handed to
+`eval_t`, in evaluation order: `(r, q.eval r)` for the listed roots `r ∈ [0,1]`, then – iff `need_ends`, i.e. iff the
+root list is empty or has a member outside [0,1] – `(0, p0)` and `(1, p2)`.
+
+## Proved
+
+*Any lawful scalar `K`* (ℚ, ℝ, …; no hypotheses):
+* `line_nearest_min` – `Line::nearest`: `t ∈ [0,1]`, `distance_sq = dist2 p (l.eval t)`, and it is the minimum of
+  `dist2 p (l.eval s)` over `s ∈ [0,1]`; all three branches, including the degenerate line `p0 = p1`; `accuracy` is
+  unconstrained (it is ignored).
+* `quad_critical_coeffs`, `quad_critical_poly`, `quad_critical_sign` –
+  `dist2 p (q.eval t) = dist2 p p0 + 4c0 t + 2c1 t² + (4/3)c2 t³ + c3 t⁴`, whose formal derivative is
+  `4·(c0 + c1 t + c2 t² + c3 t³)`, for exactly the coefficients the code builds; `c3 > 0`, or `c3 = c2 = 0 < c1`, or
+  all four vanish.
+* `quad_nearest_on_curve` – the result of `QuadBez::nearest` has `t ∈ [0,1]` and `distance_sq = dist2 p (q.eval t)`
+  for *any* root list (no solver law): the returned pair is one of the evaluated candidates.
+* `quad_nearest_candidates_min` – `distance_sq ≤` the squared distance of every evaluated candidate: every listed root
+  in [0,1], and – when `need_ends` – both end points.  `quad_nearest_first_min` – ties keep the earliest candidate.
+* `cubic_nearest_structure`, `cubic_nearest_t_range`, `cubic_pieces_tile` – `CubicBez::nearest` reports
+  `(t0 + t·(t1−t0), d²)` of the *first* piece of `to_quads(a)` with the smallest reported `d²`; the result `t` is in
+  [0,1]; the pieces' parameter ranges `[i/n,(i+1)/n]` tile [0,1].
+* `solveCubic_all_zero` – `solveCubic 0 0 0 0 = [0]` (why the zero polynomial is excluded from `CubicSolverSpec`).
+
+*Any `[Scalar K]`* (also `Float`; purely structural): `quad_nearest_is_candidate` + `quad_candidates` (the result is
+one of the candidates; the list of candidates is never empty, so `best.2 = none` and with it the `unwrap_or(0.0)`
+default is unreachable) and `cubic_nearest_is_piece`.
+
+*ℝ* (any lawful scalar structure on ℝ; one exists: `realScalar`, `realScalar_lawful` of C15):
+* `quad_critical_hasDerivAt` – `d/dt dist2 p (q.eval t) = 4·quadCritPoly q p t`.
+* `quad_nearest_min` – under `QuadRootsExact q p` (unless all four coefficients vanish, the list returned by
+  `solveCubic` for *this* query contains exactly the real roots of the critical polynomial; order/multiplicity
+  irrelevant): the four conjuncts of `line_nearest_min` for the quadratic – the returned squared distance is the
+  minimum over [0,1].  **All cases are covered**: `c3 > 0`; `c3 = 0` (then `c2 = 0` and `c1 > 0`: the quadratic is an
+  affinely parametrised segment); all coefficients zero (`p0 = p1 = p2`; there the solver hypothesis is not needed:
+  every candidate is optimal).  The `need_ends` rule is shown sound (`C09.min_at_root_of_all_roots_inside`: one-sided
+  derivative at an end-point minimum + intermediate value theorem + the sign of the odd-degree critical polynomial
+  far left/right, `C09.cubic_sign_witness`).
+  `quad_nearest_min_of_spec`: the same from the global `CubicSolverSpec ℝ`; `quad_nearest_min_affine`: *no* solver
+  hypothesis when `p1` is the midpoint of `p0 p2` (`C09.solveCubic_linear`);
+  `quad_nearest_min_real`: *no* hypothesis at all under `[LawfulReal]` (the real `sqrt cbrt sin cos atan2`), by the
+  C15 theorems `solveCubic_mem_iff`, `solveQuadratic_spec_real` (`C09.cubicSolverSpec_real`).
+* `cubic_nearest_within` – from the C17 bound taken as hypothesis `ToQuadsWithin c a` (each quadratic piece of
+  `to_quads(a)` stays within `a` of its stretch of the cubic; `toQuadsWithin_of_squared_bound` converts from the
+  squared, indexed form of C17's `toQuads_error_bound`) and `QuadRootsExact` for each piece:
+  `t ∈ [0,1]`, `|√distance_sq − curveDist c.eval p| ≤ a`, `pdist p (c.eval t) ≤ curveDist c.eval p + 2a`
+  (`cubic_nearest_bounds` is the infimum-free form).  The tiling of [0,1] is proved, not assumed.
+  `cubic_nearest_within_real`: under `[LawfulReal]` only `ToQuadsWithin` remains.
+* `pathSeg_nearest_within` (`…_real`) – the property text for `PathSeg.nearest`, under `PathSegNearestHyp` (nothing
+  for a line, `QuadRootsExact` for a quadratic, the two hypotheses above for a cubic) and `0 ≤ a`;
+  `pathSeg_nearest_exact`: for lines and quadratics the reported distance *is* the distance.
+
+## NOT proved
+* `ToQuadsWithin` (the `to_quads` error bound) – that is property C17; here a hypothesis (shown satisfiable, and a
+  theorem for cubics of degree ≤ 2: `C09.toQuadsWithin_of_quadratic`).
+* `CubicSolverSpec ℝ` is not proved *here*: it is taken as a hypothesis, or (the `…_real` theorems) obtained from C15
+  under the extra class `LawfulReal`.
+* Nothing about `Float`: rounding in the solver (design findings 5.f / row l: `solve_cubic` with a tiny leading
+  coefficient; distances ~5e-7 for points on the curve) is outside these theorems; only the `[Scalar K]` structural
+  statements apply to `Float`.  `accuracy` is ignored by `Line`/`QuadBez::nearest`, so over ℝ they are exact. -/
+set_option linter.unusedSectionVars false
 namespace Kurbo
+open C09
+
+/-! ## 1. `Line::nearest` (any lawful scalar) -/
+section line
+variable {K : Type} [Field K] [LinearOrder K] [IsStrictOrderedRing K] [FloorRing K] [Scalar K] [LawfulScalar K]
+
+theorem line_nearest_min (l : Line K) (p : Point K) (acc : K) :
+    0 ≤ (l.nearest p acc).t ∧ (l.nearest p acc).t ≤ 1 ∧
+    (l.nearest p acc).distance_sq = dist2 p (l.eval (l.nearest p acc).t) ∧
+    ∀ s, 0 ≤ s → s ≤ 1 → (l.nearest p acc).distance_sq ≤ dist2 p (l.eval s) := by
+  rw [line_nearest_eq]
+  set dx := l.p1.x - l.p0.x with hdx
+  set dy := l.p1.y - l.p0.y with hdy
+  set wx := p.x - l.p0.x with hwx
+  set wy := p.y - l.p0.y with hwy
+  have hD0 : 0 ≤ dx * dx + dy * dy := add_nonneg (mul_self_nonneg _) (mul_self_nonneg _)
+  by_cases h1 : dx * wx + dy * wy ≤ 0
+  · rw [if_pos h1]
+    refine ⟨le_refl _, zero_le_one, by rw [line_eval_zero], ?_⟩
+    intro s hs0 hs1
+    rw [dist2_line_eval, ← hdx, ← hdy, ← hwx, ← hwy]
+    have e : dist2 p l.p0 = wx ^ 2 + wy ^ 2 := rfl
+    rw [e]
+    have h2 : 0 ≤ s * (-(dx * wx + dy * wy)) := mul_nonneg hs0 (neg_nonneg.mpr h1)
+    have h3 : 0 ≤ s ^ 2 * (dx * dx + dy * dy) := mul_nonneg (sq_nonneg s) hD0
+    nlinarith [h2, h3]
+  · rw [if_neg h1]
+    by_cases h2 : dx * dx + dy * dy ≤ dx * wx + dy * wy
+    · rw [if_pos h2]
+      refine ⟨zero_le_one, le_refl _, by rw [line_eval_one], ?_⟩
+      intro s hs0 hs1
+      rw [dist2_line_eval, ← hdx, ← hdy, ← hwx, ← hwy]
+      have e : dist2 p l.p1 = (wx - dx) ^ 2 + (wy - dy) ^ 2 := by
+        unfold dist2; rw [hwx, hwy, hdx, hdy]; ring
+      rw [e]
+      have h3 : 0 ≤ (1 - s) * ((dx * wx + dy * wy) - (dx * dx + dy * dy)) :=
+        mul_nonneg (sub_nonneg.mpr hs1) (sub_nonneg.mpr h2)
+      have h4 : 0 ≤ (1 - s) ^ 2 * (dx * dx + dy * dy) := mul_nonneg (sq_nonneg _) hD0
+      nlinarith [h3, h4]
+    · rw [if_neg h2]
+      have hpos : 0 < dx * wx + dy * wy := not_le.mp h1
+      have hlt : dx * wx + dy * wy < dx * dx + dy * dy := not_le.mp h2
+      have hD : 0 < dx * dx + dy * dy := hpos.trans hlt
+      refine ⟨div_nonneg hpos.le hD.le, (div_le_one hD).mpr hlt.le, rfl, ?_⟩
+      intro s hs0 hs1
+      simp only
+      rw [dist2_line_eval, dist2_line_eval, ← hdx, ← hdy, ← hwx, ← hwy]
+      exact proj_min wx wy dx dy s _ hD (div_mul_cancel₀ _ hD.ne')
+
+/-- the three branches and the degenerate line, evaluated (`Nearest` is `⟨distance_sq, t⟩`) -/
+example : (Line.nearest (⟨⟨0, 0⟩, ⟨4, 0⟩⟩ : Line Rat) ⟨1, 2⟩ 0).t = 1 / 4 ∧
+    (Line.nearest (⟨⟨0, 0⟩, ⟨4, 0⟩⟩ : Line Rat) ⟨1, 2⟩ 0).distance_sq = 4 ∧
+    (Line.nearest (⟨⟨0, 0⟩, ⟨4, 0⟩⟩ : Line Rat) ⟨-3, 4⟩ 0).t = 0 ∧
+    (Line.nearest (⟨⟨0, 0⟩, ⟨4, 0⟩⟩ : Line Rat) ⟨-3, 4⟩ 0).distance_sq = 25 ∧
+    (Line.nearest (⟨⟨0, 0⟩, ⟨4, 0⟩⟩ : Line Rat) ⟨7, 4⟩ 0).t = 1 ∧
+    (Line.nearest (⟨⟨0, 0⟩, ⟨4, 0⟩⟩ : Line Rat) ⟨7, 4⟩ 0).distance_sq = 25 ∧
+    (Line.nearest (⟨⟨1, 1⟩, ⟨1, 1⟩⟩ : Line Rat) ⟨4, 5⟩ 0).t = 0 ∧
+    (Line.nearest (⟨⟨1, 1⟩, ⟨1, 1⟩⟩ : Line Rat) ⟨4, 5⟩ 0).distance_sq = 25 := by decide +kernel
+
+end line
+
+/-! ## 2. the critical-point polynomial of `QuadBez::nearest` -/
+section critical
+variable {K : Type} [Field K] [LinearOrder K] [IsStrictOrderedRing K] [FloorRing K] [Scalar K] [LawfulScalar K]
+
+/-- the coefficients the code builds, in coordinates: with `d = p0 − p`, `d0 = p1 − p0`, `d1 = p0 + p2 − 2p1`,
+    `c0 = d·d0`, `c1 = 2|d0|² + d·d1`, `c2 = 3 d1·d0`, `c3 = |d1|²` -/
+theorem quad_critical_coeffs (q : QuadBez K) (p : Point K) :
+    quadNearestCoeffs q p =
+      ( (q.p0.x - p.x) * (q.p1.x - q.p0.x) + (q.p0.y - p.y) * (q.p1.y - q.p0.y),
+        2 * ((q.p1.x - q.p0.x) ^ 2 + (q.p1.y - q.p0.y) ^ 2)
+          + ((q.p0.x - p.x) * (q.p0.x + q.p2.x - 2 * q.p1.x) + (q.p0.y - p.y) * (q.p0.y + q.p2.y - 2 * q.p1.y)),
+        3 * ((q.p0.x + q.p2.x - 2 * q.p1.x) * (q.p1.x - q.p0.x) + (q.p0.y + q.p2.y - 2 * q.p1.y) * (q.p1.y - q.p0.y)),
+        (q.p0.x + q.p2.x - 2 * q.p1.x) ^ 2 + (q.p0.y + q.p2.y - 2 * q.p1.y) ^ 2 ) ∧
+    ∀ a, q.nearest p a = nearestOfRoots q p
+      (solveCubic (quadNearestCoeffs q p).1 (quadNearestCoeffs q p).2.1 (quadNearestCoeffs q p).2.2.1
+        (quadNearestCoeffs q p).2.2.2) :=
+  ⟨quadNearestCoeffs_eq q p, fun _ => rfl⟩
+
+/-- the squared distance along the quadratic is the quartic `D(t) = |p−p0|² + 4c0 t + 2c1 t² + (4/3)c2 t³ + c3 t⁴`,
+    and `D′ = 4·(c0 + c1 t + c2 t² + c3 t³)` formally -/
+theorem quad_critical_poly (q : QuadBez K) (p : Point K) (t : K) :
+    dist2 p (q.eval t) = dist2 p q.p0 + 4 * (quadNearestCoeffs q p).1 * t + 2 * (quadNearestCoeffs q p).2.1 * t ^ 2
+      + 4 / 3 * (quadNearestCoeffs q p).2.2.1 * t ^ 3 + (quadNearestCoeffs q p).2.2.2 * t ^ 4 ∧
+    4 * (quadNearestCoeffs q p).1 + 2 * (quadNearestCoeffs q p).2.1 * (2 * t)
+      + 4 / 3 * (quadNearestCoeffs q p).2.2.1 * (3 * t ^ 2) + (quadNearestCoeffs q p).2.2.2 * (4 * t ^ 3)
+      = 4 * quadCritPoly q p t :=
+  ⟨quad_dist2_poly q p t, by unfold quadCritPoly; ring⟩
+
+/-- the sign structure that makes the `need_ends` rule sound: positive leading coefficient of odd degree, or the
+    zero polynomial -/
+theorem quad_critical_sign (q : QuadBez K) (p : Point K) :
+    0 < (quadNearestCoeffs q p).2.2.2 ∨
+    ((quadNearestCoeffs q p).2.2.2 = 0 ∧ (quadNearestCoeffs q p).2.2.1 = 0 ∧ 0 < (quadNearestCoeffs q p).2.1) ∨
+    quadCoeffsAllZero q p := quadCoeffs_sign q p
+
+example : quadNearestCoeffs (⟨⟨0, 0⟩, ⟨1, 2⟩, ⟨3, 0⟩⟩ : QuadBez Rat) ⟨1, 1⟩ = (-3, 13, -21, 17) := by decide +kernel
+
+end critical
+
+section criticalReal
+variable [Scalar ℝ] [LawfulScalar ℝ]
+
+theorem quad_critical_hasDerivAt (q : QuadBez ℝ) (p : Point ℝ) (t : ℝ) :
+    HasDerivAt (fun x => dist2 p (q.eval x)) (4 * quadCritPoly q p t) t := quad_dist2_hasDerivAt q p t
+
+end criticalReal
+
+/-! ## 3. structure of `QuadBez::nearest` (no solver law) -/
+section structural
+variable {K' : Type} [Scalar K']
+
+/-- any `Scalar` (also `Float`): the candidate list is never empty (so `best.2 = none`, hence the `unwrap_or(0.0)`
+    default, is unreachable), and the result is one of the candidates with its squared distance as `eval_t`
+    computes it -/
+theorem quad_nearest_is_candidate (q : QuadBez K') (p : Point K') (a : K') :
+    quadCands q (quadNearestRoots q p) ≠ [] ∧
+    ∃ c ∈ quadCands q (quadNearestRoots q p), (q.nearest p a).t = c.1 ∧ (q.nearest p a).distance_sq = (c.2 - p).hypot2 := by
+  refine ⟨quadCands_ne_nil q _, ?_⟩
+  rw [quad_nearest_eq_ofRoots, nearestOfRoots_eq, bestOf_eq_minFold]
+  obtain ⟨c, hc, h⟩ := minFold_none_mem Prod.fst (candDist p) (quadCands q (quadNearestRoots q p)) (quadCands_ne_nil q _)
+  refine ⟨c, hc, ?_, ?_⟩
+  · show (minFold _ _ _ _).1 = _
+    rw [h]
+  · show (minFold _ _ _ _).2.getD _ = _
+    rw [h]; rfl
+
+/-- what the candidates are: a listed root that passes the range test, or – only when `need_ends` – an end point -/
+theorem quad_candidates (q : QuadBez K') (roots : List K') (c : K' × Point K') :
+    c ∈ quadCands q roots ↔
+      (∃ t ∈ roots, nearInRange t = true ∧ c = (t, q.eval t)) ∨
+      ((roots = [] ∨ ∃ t ∈ roots, nearInRange t = false) ∧
+        (c = (Scalar.ofRat ((0 : Nat) : Rat), q.p0) ∨ c = (Scalar.ofRat ((1 : Nat) : Rat), q.p2))) := by
+  rw [mem_quadCands, quadNeedEnds_iff]
+
+end structural
+
+section structuralLawful
+variable {K : Type} [Field K] [LinearOrder K] [IsStrictOrderedRing K] [FloorRing K] [Scalar K] [LawfulScalar K]
+
+/-- the candidates in ordinary arithmetic -/
+theorem quad_candidates_lawful (q : QuadBez K) (roots : List K) (c : K × Point K) :
+    c ∈ quadCands q roots ↔
+      (∃ t ∈ roots, 0 ≤ t ∧ t ≤ 1 ∧ c = (t, q.eval t)) ∨
+      ((roots = [] ∨ ∃ t ∈ roots, ¬ (0 ≤ t ∧ t ≤ 1)) ∧ (c = (0, q.p0) ∨ c = (1, q.p2))) :=
+  mem_quadCands_lawful q roots c
+
+/-- whatever the solver returns: `t ∈ [0,1]` and `distance_sq` is the squared distance to the curve point at `t` -/
+theorem quad_nearest_on_curve (q : QuadBez K) (p : Point K) (a : K) :
+    0 ≤ (q.nearest p a).t ∧ (q.nearest p a).t ≤ 1 ∧
+    (q.nearest p a).distance_sq = dist2 p (q.eval (q.nearest p a).t) := by
+  obtain ⟨c, hc, ht, hd, -⟩ := quad_nearest_min_cands q p a
+  obtain ⟨h0, h1, he⟩ := quadCands_on_curve q _ c hc
+  rw [ht, hd, he]
+  exact ⟨h0, h1, rfl⟩
+
+/-- the result is the minimum over all evaluated candidates: the listed roots in [0,1], and – when the list is empty
+    or has a member outside [0,1] (`need_ends`) – the two end points -/
+theorem quad_nearest_candidates_min (q : QuadBez K) (p : Point K) (a : K) :
+    (∀ r ∈ quadNearestRoots q p, 0 ≤ r → r ≤ 1 → (q.nearest p a).distance_sq ≤ dist2 p (q.eval r)) ∧
+    ((quadNearestRoots q p = [] ∨ ∃ t ∈ quadNearestRoots q p, ¬ (0 ≤ t ∧ t ≤ 1)) →
+      (q.nearest p a).distance_sq ≤ dist2 p q.p0 ∧ (q.nearest p a).distance_sq ≤ dist2 p q.p2) := by
+  obtain ⟨c, -, -, -, hmin⟩ := quad_nearest_min_cands q p a
+  constructor
+  · intro r hr h0 h1
+    exact hmin (r, q.eval r) ((mem_quadCands_lawful q _ _).mpr (Or.inl ⟨r, hr, h0, h1, rfl⟩))
+  · intro hN
+    exact ⟨hmin (0, q.p0) ((mem_quadCands_lawful q _ _).mpr (Or.inr ⟨hN, Or.inl rfl⟩)),
+      hmin (1, q.p2) ((mem_quadCands_lawful q _ _).mpr (Or.inr ⟨hN, Or.inr rfl⟩))⟩
+
+/-- `eval_t` replaces the best candidate only on a strict improvement: the result is the *first* candidate (in
+    evaluation order) of minimal squared distance -/
+theorem quad_nearest_first_min (q : QuadBez K) (p : Point K) (a : K) :
+    ∃ l₁ c l₂, quadCands q (quadNearestRoots q p) = l₁ ++ c :: l₂ ∧
+      (q.nearest p a).t = c.1 ∧ (q.nearest p a).distance_sq = dist2 p c.2 ∧
+      (∀ c' ∈ l₁, dist2 p c.2 < dist2 p c'.2) ∧ (∀ c' ∈ l₂, dist2 p c.2 ≤ dist2 p c'.2) :=
+  quad_nearest_firstMin q p a
+
+/-- an interior root, all roots inside [0,1]: `need_ends` stays false and the root is the only candidate -/
+example : quadNearestRoots (⟨⟨0, 0⟩, ⟨1, 0⟩, ⟨2, 0⟩⟩ : QuadBez Rat) ⟨1/2, 3⟩ = [1 / 4] ∧
+    quadCands (⟨⟨0, 0⟩, ⟨1, 0⟩, ⟨2, 0⟩⟩ : QuadBez Rat) [1 / 4] = [(1 / 4, ⟨1 / 2, 0⟩)] ∧
+    (QuadBez.nearest (⟨⟨0, 0⟩, ⟨1, 0⟩, ⟨2, 0⟩⟩ : QuadBez Rat) ⟨1/2, 3⟩ 0).t = 1 / 4 ∧
+    (QuadBez.nearest (⟨⟨0, 0⟩, ⟨1, 0⟩, ⟨2, 0⟩⟩ : QuadBez Rat) ⟨1/2, 3⟩ 0).distance_sq = 9 := by decide +kernel
+
+/-- a root outside [0,1]: `need_ends`, the end points are evaluated and the nearer one wins -/
+example : quadNearestRoots (⟨⟨0, 0⟩, ⟨1, 0⟩, ⟨2, 0⟩⟩ : QuadBez Rat) ⟨-3, 4⟩ = [-3 / 2] ∧
+    quadCands (⟨⟨0, 0⟩, ⟨1, 0⟩, ⟨2, 0⟩⟩ : QuadBez Rat) [-3 / 2] = [(0, ⟨0, 0⟩), (1, ⟨2, 0⟩)] ∧
+    (QuadBez.nearest (⟨⟨0, 0⟩, ⟨1, 0⟩, ⟨2, 0⟩⟩ : QuadBez Rat) ⟨-3, 4⟩ 0).t = 0 ∧
+    (QuadBez.nearest (⟨⟨0, 0⟩, ⟨1, 0⟩, ⟨2, 0⟩⟩ : QuadBez Rat) ⟨-3, 4⟩ 0).distance_sq = 25 := by decide +kernel
+
+/-- the one-point quadratic: all coefficients vanish, the solver answers `[0]` -/
+example : quadNearestCoeffs (⟨⟨1, 1⟩, ⟨1, 1⟩, ⟨1, 1⟩⟩ : QuadBez Rat) ⟨4, 5⟩ = (0, 0, 0, 0) ∧
+    quadNearestRoots (⟨⟨1, 1⟩, ⟨1, 1⟩, ⟨1, 1⟩⟩ : QuadBez Rat) ⟨4, 5⟩ = [0] ∧
+    (QuadBez.nearest (⟨⟨1, 1⟩, ⟨1, 1⟩, ⟨1, 1⟩⟩ : QuadBez Rat) ⟨4, 5⟩ 0).distance_sq = 25 := by decide +kernel
+
+end structuralLawful
+
+/-! ## 4. `QuadBez::nearest` returns the minimum (ℝ, under the solver hypothesis) -/
+section quadReal
+variable [Scalar ℝ] [LawfulScalar ℝ]
+
+theorem quad_nearest_min (q : QuadBez ℝ) (p : Point ℝ) (a : ℝ) (hS : QuadRootsExact q p) :
+    0 ≤ (q.nearest p a).t ∧ (q.nearest p a).t ≤ 1 ∧
+    (q.nearest p a).distance_sq = dist2 p (q.eval (q.nearest p a).t) ∧
+    ∀ s, 0 ≤ s → s ≤ 1 → (q.nearest p a).distance_sq ≤ dist2 p (q.eval s) := by
+  obtain ⟨h0, h1, h2⟩ := quad_nearest_on_curve q p a
+  exact ⟨h0, h1, h2, fun s hs0 hs1 => quad_nearest_le q p a hS s hs0 hs1⟩
+
+/-- the same from the global specification of the solver -/
+theorem quad_nearest_min_of_spec (hS : CubicSolverSpec ℝ) (q : QuadBez ℝ) (p : Point ℝ) (a : ℝ) :
+    0 ≤ (q.nearest p a).t ∧ (q.nearest p a).t ≤ 1 ∧
+    (q.nearest p a).distance_sq = dist2 p (q.eval (q.nearest p a).t) ∧
+    ∀ s, 0 ≤ s → s ≤ 1 → (q.nearest p a).distance_sq ≤ dist2 p (q.eval s) :=
+  quad_nearest_min q p a (hS.quadRootsExact q p)
+
+/-- no solver hypothesis at all when `p1` is the midpoint of `p0 p2` (`c3 = c2 = 0`: the solver only divides);
+    this includes the one-point quadratic (all coefficients zero) -/
+theorem quad_nearest_min_affine (q : QuadBez ℝ) (p : Point ℝ) (a : ℝ)
+    (hx : q.p0.x + q.p2.x = 2 * q.p1.x) (hy : q.p0.y + q.p2.y = 2 * q.p1.y) :
+    0 ≤ (q.nearest p a).t ∧ (q.nearest p a).t ≤ 1 ∧
+    (q.nearest p a).distance_sq = dist2 p (q.eval (q.nearest p a).t) ∧
+    ∀ s, 0 ≤ s → s ≤ 1 → (q.nearest p a).distance_sq ≤ dist2 p (q.eval s) :=
+  quad_nearest_min q p a (quadRootsExact_of_affine q p hx hy)
+
+end quadReal
+
+/-- the all-zero polynomial is excluded from `CubicSolverSpec` because the model answers `[0]` for it -/
+theorem solveCubic_all_zero {K : Type} [Field K] [LinearOrder K] [IsStrictOrderedRing K] [FloorRing K] [Scalar K]
+    [LawfulScalar K] : solveCubic (0 : K) 0 0 0 = [0] := solveCubic_zero
+
+/-- non-vacuity of `QuadRootsExact` over ℝ: a lawful scalar structure on ℝ exists (`realScalar`, from C15), and for it the
+    hypothesis holds for a non-degenerate query (`c1 = 2 ≠ 0`) by field arithmetic alone -/
+example : ∃ (_ : Scalar ℝ) (_ : LawfulScalar ℝ),
+    QuadRootsExact (⟨⟨0, 0⟩, ⟨1, 0⟩, ⟨2, 0⟩⟩ : QuadBez ℝ) ⟨1/2, 3⟩ ∧
+    ¬ quadCoeffsAllZero (⟨⟨0, 0⟩, ⟨1, 0⟩, ⟨2, 0⟩⟩ : QuadBez ℝ) ⟨1/2, 3⟩ := by
+  refine ⟨realScalar, realScalar_lawful, ?_, ?_⟩
+  · let _ := realScalar
+    have _ := realScalar_lawful
+    exact quadRootsExact_of_affine _ _ (by norm_num) (by norm_num)
+  · let _ := realScalar
+    have _ := realScalar_lawful
+    unfold quadCoeffsAllZero
+    rw [quadNearestCoeffs_eq]
+    norm_num
+
+/-- … and with the real `sqrt`, `cbrt`, `sin`, `cos`, `atan2` (`LawfulReal`, C15) the hypothesis is a theorem:
+    `QuadBez::nearest` over ℝ returns the minimum, for every quadratic and every point -/
+theorem quad_nearest_min_real [Scalar ℝ] [LawfulScalar ℝ] [LawfulReal] (q : QuadBez ℝ) (p : Point ℝ) (a : ℝ) :
+    0 ≤ (q.nearest p a).t ∧ (q.nearest p a).t ≤ 1 ∧
+    (q.nearest p a).distance_sq = dist2 p (q.eval (q.nearest p a).t) ∧
+    ∀ s, 0 ≤ s → s ≤ 1 → (q.nearest p a).distance_sq ≤ dist2 p (q.eval s) :=
+  quad_nearest_min_of_spec cubicSolverSpec_real q p a
+
+example : ∃ (_ : Scalar ℝ) (_ : LawfulScalar ℝ), LawfulReal :=
+  ⟨realScalar, realScalar_lawful, realScalar_lawfulReal⟩
+
+/-! ## 5. `CubicBez::nearest` -/
+section cubicStructural
+variable {K' : Type} [Scalar K']
+
+/-- any `Scalar`: `to_quads` is never empty and the result is `(t0 + t·(t1 − t0), d²)` of one of its pieces -/
+theorem cubic_nearest_is_piece (c : CubicBez K') (p : Point K') (a : K') :
+    c.to_quads a ≠ [] ∧
+    ∃ piece ∈ c.to_quads a, (c.nearest p a).t = cubicPieceT p a piece ∧
+      (c.nearest p a).distance_sq = (piece.2.2.nearest p a).distance_sq := by
+  refine ⟨to_quads_ne_nil c a, ?_⟩
+  rw [cubic_nearest_eq_minFold]
+  obtain ⟨x, hx, h⟩ := minFold_none_mem (cubicPieceT p a) (cubicPieceD p a) (c.to_quads a) (to_quads_ne_nil c a)
+  refine ⟨x, hx, ?_, ?_⟩
+  · show (minFold _ _ _ _).1 = _
+    rw [h]
+  · show (minFold _ _ _ _).2.getD _ = _
+    rw [h]; rfl
+
+end cubicStructural
+
+section cubicLawful
+variable {K : Type} [Field K] [LinearOrder K] [IsStrictOrderedRing K] [FloorRing K] [Scalar K] [LawfulScalar K]
+
+/-- the result is that of the first piece `(t0, t1, quad)` with the smallest reported squared distance, mapped back
+    to the cubic's parameter -/
+theorem cubic_nearest_structure (c : CubicBez K) (p : Point K) (a : K) :
+    ∃ l₁ piece l₂, c.to_quads a = l₁ ++ piece :: l₂ ∧
+      (c.nearest p a).t = piece.1 + (piece.2.2.nearest p a).t * (piece.2.1 - piece.1) ∧
+      (c.nearest p a).distance_sq = (piece.2.2.nearest p a).distance_sq ∧
+      (∀ x ∈ l₁, (piece.2.2.nearest p a).distance_sq < (x.2.2.nearest p a).distance_sq) ∧
+      (∀ x ∈ l₂, (piece.2.2.nearest p a).distance_sq ≤ (x.2.2.nearest p a).distance_sq) :=
+  cubic_nearest_firstMin c p a
+
+/-- piece `i` of `n` covers `[i/n, (i+1)/n]`; the pieces tile [0,1] -/
+theorem cubic_pieces_tile (c : CubicBez K) (a : K) :
+    (∀ piece ∈ c.to_quads a, 0 ≤ piece.1 ∧ piece.1 ≤ piece.2.1 ∧ piece.2.1 ≤ 1) ∧
+    ∀ t, 0 ≤ t → t ≤ 1 → ∃ piece ∈ c.to_quads a, ∃ s, 0 ≤ s ∧ s ≤ 1 ∧ t = piece.1 + s * (piece.2.1 - piece.1) :=
+  ⟨fun piece h => piece_bounds c a piece h, fun t h0 h1 => to_quads_tiling c a t h0 h1⟩
+
+theorem cubic_nearest_t_range (c : CubicBez K) (p : Point K) (a : K) :
+    0 ≤ (c.nearest p a).t ∧ (c.nearest p a).t ≤ 1 := by
+  obtain ⟨piece, hp, ht, -, -⟩ := cubic_nearest_min_pieces c p a
+  obtain ⟨b0, b1, b2⟩ := piece_bounds c a piece hp
+  obtain ⟨u0, u1, -⟩ := quad_nearest_on_curve piece.2.2 p a
+  have hw : 0 ≤ piece.2.1 - piece.1 := by linarith
+  have hu : (piece.2.2.nearest p a).t * (piece.2.1 - piece.1) ≤ 1 * (piece.2.1 - piece.1) :=
+    mul_le_mul_of_nonneg_right u1 hw
+  have hu' : 0 ≤ (piece.2.2.nearest p a).t * (piece.2.1 - piece.1) := mul_nonneg u0 hw
+  rw [ht]
+  constructor <;> linarith
+
+end cubicLawful
+
+section cubicReal
+variable [Scalar ℝ] [LawfulScalar ℝ]
+
+/-- infimum-free form: the reported distance is at most `a` above every true distance, and the true distance at the
+    reported parameter is at most `a` above the reported one -/
+theorem cubic_nearest_bounds (c : CubicBez ℝ) (p : Point ℝ) (a : ℝ)
+    (hS : ∀ piece ∈ c.to_quads a, QuadRootsExact piece.2.2 p) (hE : ToQuadsWithin c a) :
+    0 ≤ (c.nearest p a).t ∧ (c.nearest p a).t ≤ 1 ∧
+    (∀ t, 0 ≤ t → t ≤ 1 → Real.sqrt (c.nearest p a).distance_sq ≤ pdist p (c.eval t) + a) ∧
+    pdist p (c.eval (c.nearest p a).t) ≤ Real.sqrt (c.nearest p a).distance_sq + a := by
+  obtain ⟨piece, hp, ht, hd, hmin⟩ := cubic_nearest_min_pieces c p a
+  obtain ⟨b0, b1, b2⟩ := piece_bounds c a piece hp
+  obtain ⟨cq, hcq, hqt, hqd, -⟩ := quad_nearest_min_cands piece.2.2 p a
+  obtain ⟨u0, u1, ue⟩ := quadCands_on_curve piece.2.2 _ cq hcq
+  rw [← hqt] at u0 u1 ue
+  obtain ⟨r0, r1⟩ := cubic_nearest_t_range c p a
+  refine ⟨r0, r1, ?_, ?_⟩
+  · intro t h0 h1
+    obtain ⟨x, hx, s, s0, s1, hts⟩ := to_quads_tiling c a t h0 h1
+    have h1 : (c.nearest p a).distance_sq ≤ dist2 p (x.2.2.eval s) :=
+      (hmin x hx).trans (quad_nearest_le x.2.2 p a (hS x hx) s s0 s1)
+    have h2 : Real.sqrt (c.nearest p a).distance_sq ≤ pdist p (x.2.2.eval s) := Real.sqrt_le_sqrt h1
+    have h3 := pdist_triangle p (c.eval t) (x.2.2.eval s)
+    have h4 := hE x hx s s0 s1
+    rw [← hts, pdist_comm] at h4
+    linarith
+  · rw [hd, hqd, ue]
+    have h3 := pdist_triangle p (piece.2.2.eval (piece.2.2.nearest p a).t) (c.eval (c.nearest p a).t)
+    have h4 := hE piece hp _ u0 u1
+    rw [← ht] at h4
+    unfold pdist at h3 h4 ⊢
+    linarith
+
+theorem cubic_nearest_within (c : CubicBez ℝ) (p : Point ℝ) (a : ℝ)
+    (hS : ∀ piece ∈ c.to_quads a, QuadRootsExact piece.2.2 p) (hE : ToQuadsWithin c a) :
+    0 ≤ (c.nearest p a).t ∧ (c.nearest p a).t ≤ 1 ∧
+    |Real.sqrt (c.nearest p a).distance_sq - curveDist c.eval p| ≤ a ∧
+    pdist p (c.eval (c.nearest p a).t) ≤ curveDist c.eval p + 2 * a := by
+  obtain ⟨h0, h1, hA, hB⟩ := cubic_nearest_bounds c p a hS hE
+  exact ⟨h0, h1, within_of_bounds c.eval p _ a _ h0 h1 hA hB⟩
+
+/-- the property text, for every segment kind -/
+theorem pathSeg_nearest_within (s : PathSeg ℝ) (p : Point ℝ) (a : ℝ) (ha : 0 ≤ a) (h : PathSegNearestHyp s p a) :
+    0 ≤ (s.nearest p a).t ∧ (s.nearest p a).t ≤ 1 ∧
+    |Real.sqrt (s.nearest p a).distance_sq - curveDist s.eval p| ≤ a ∧
+    pdist p (s.eval (s.nearest p a).t) ≤ curveDist s.eval p + 2 * a := by
+  cases s with
+  | Line l =>
+    obtain ⟨h0, h1, h2, h3⟩ := line_nearest_min l p a
+    exact ⟨h0, h1, within_of_exact l.eval p _ a _ ha h0 h1 h2 h3⟩
+  | Quad q =>
+    obtain ⟨h0, h1, h2, h3⟩ := quad_nearest_min q p a h
+    exact ⟨h0, h1, within_of_exact q.eval p _ a _ ha h0 h1 h2 h3⟩
+  | Cubic c => exact cubic_nearest_within c p a h.1 h.2
+
+/-- lines and quadratics are exact (`a = 0`): the reported distance *is* the distance to the segment -/
+theorem pathSeg_nearest_exact (s : PathSeg ℝ) (p : Point ℝ) (a : ℝ)
+    (hs : match s with | .Line _ => True | .Quad q => QuadRootsExact q p | .Cubic _ => False) :
+    Real.sqrt (s.nearest p a).distance_sq = curveDist s.eval p ∧
+    pdist p (s.eval (s.nearest p a).t) = curveDist s.eval p := by
+  cases s with
+  | Line l =>
+    obtain ⟨h0, h1, h2, h3⟩ := line_nearest_min l p a
+    have := within_of_exact l.eval p _ 0 _ (le_refl _) h0 h1 h2 h3
+    exact exact_of_within_zero _ _ _ _ h0 h1 this
+  | Quad q =>
+    obtain ⟨h0, h1, h2, h3⟩ := quad_nearest_min q p a hs
+    have := within_of_exact q.eval p _ 0 _ (le_refl _) h0 h1 h2 h3
+    exact exact_of_within_zero _ _ _ _ h0 h1 this
+  | Cubic c => exact absurd hs id
+
+/-- with the C15 solver theorems only the C17 bound remains as a hypothesis -/
+theorem cubic_nearest_within_real [LawfulReal] (c : CubicBez ℝ) (p : Point ℝ) (a : ℝ) (hE : ToQuadsWithin c a) :
+    0 ≤ (c.nearest p a).t ∧ (c.nearest p a).t ≤ 1 ∧
+    |Real.sqrt (c.nearest p a).distance_sq - curveDist c.eval p| ≤ a ∧
+    pdist p (c.eval (c.nearest p a).t) ≤ curveDist c.eval p + 2 * a :=
+  cubic_nearest_within c p a (fun piece _ => cubicSolverSpec_real.quadRootsExact piece.2.2 p) hE
+
+theorem pathSeg_nearest_within_real [LawfulReal] (s : PathSeg ℝ) (p : Point ℝ) (a : ℝ) (ha : 0 ≤ a)
+    (hE : ∀ c, s = .Cubic c → ToQuadsWithin c a) :
+    0 ≤ (s.nearest p a).t ∧ (s.nearest p a).t ≤ 1 ∧
+    |Real.sqrt (s.nearest p a).distance_sq - curveDist s.eval p| ≤ a ∧
+    pdist p (s.eval (s.nearest p a).t) ≤ curveDist s.eval p + 2 * a := by
+  apply pathSeg_nearest_within s p a ha
+  cases s with
+  | Line l => exact trivial
+  | Quad q => exact cubicSolverSpec_real.quadRootsExact q p
+  | Cubic c => exact ⟨fun piece _ => cubicSolverSpec_real.quadRootsExact piece.2.2 p, hE c rfl⟩
+
+end cubicReal
+
+/-- non-vacuity of the hypotheses of `cubic_nearest_within` over ℝ (a straight, uniformly parametrised cubic: every
+    piece of `to_quads` is exact and affine, whatever the piece count) -/
+example : ∃ (_ : Scalar ℝ) (_ : LawfulScalar ℝ),
+    (∀ piece ∈ (⟨⟨0, 0⟩, ⟨1, 1⟩, ⟨2, 2⟩, ⟨3, 3⟩⟩ : CubicBez ℝ).to_quads 1, QuadRootsExact piece.2.2 ⟨1, 3⟩) ∧
+    ToQuadsWithin (⟨⟨0, 0⟩, ⟨1, 1⟩, ⟨2, 2⟩, ⟨3, 3⟩⟩ : CubicBez ℝ) 1 := by
+  refine ⟨realScalar, realScalar_lawful, ?_, ?_⟩
+  · let _ := realScalar
+    have _ := realScalar_lawful
+    intro piece hp
+    obtain ⟨i, _, rfl⟩ := (mem_to_quads _ _ piece).mp hp
+    apply quadRootsExact_of_affine
+    · unfold toQuadsPiece
+      simp only [kdefs, scalar_norm]
+      generalize (natK i : ℝ) / natK _ = t0
+      generalize (natK (i + 1) : ℝ) / natK _ = t1
+      push_cast
+      ring
+    · unfold toQuadsPiece
+      simp only [kdefs, scalar_norm]
+      generalize (natK i : ℝ) / natK _ = t0
+      generalize (natK (i + 1) : ℝ) / natK _ = t1
+      push_cast
+      ring
+  · let _ := realScalar
+    have _ := realScalar_lawful
+    exact toQuadsWithin_of_quadratic _ (by norm_num) (by norm_num) 1 zero_le_one
+
+/-- `ToQuadsWithin` is exactly what C17's `toQuads_error_bound` delivers (squared form, indexed pieces) -/
+theorem toQuadsWithin_of_squared_bound [Scalar ℝ] [LawfulScalar ℝ] (c : CubicBez ℝ) (a : ℝ) (ha : 0 ≤ a)
+    (h : ∀ (i : Nat) (p : ℝ × ℝ × QuadBez ℝ), (c.to_quads a)[i]? = some p → ∀ s, 0 ≤ s → s ≤ 1 →
+      ((p.2.2.eval s).x - (c.eval (p.1 + s * (p.2.1 - p.1))).x) ^ 2
+        + ((p.2.2.eval s).y - (c.eval (p.1 + s * (p.2.1 - p.1))).y) ^ 2 ≤ a ^ 2) : ToQuadsWithin c a :=
+  toQuadsWithin_of_sq c a ha h
+
+example : (CubicBez.nearest (⟨⟨0, 0⟩, ⟨1, 0⟩, ⟨2, 0⟩, ⟨3, 0⟩⟩ : CubicBez Rat) ⟨1, 2⟩ 1).t = 1 / 3 ∧
+    (CubicBez.nearest (⟨⟨0, 0⟩, ⟨1, 0⟩, ⟨2, 0⟩, ⟨3, 0⟩⟩ : CubicBez Rat) ⟨1, 2⟩ 1).distance_sq = 4 ∧
+    (PathSeg.nearest (.Cubic (⟨⟨0, 0⟩, ⟨1, 0⟩, ⟨2, 0⟩, ⟨3, 0⟩⟩ : CubicBez Rat)) ⟨-4, 3⟩ 1).t = 0 ∧
+    (PathSeg.nearest (.Cubic (⟨⟨0, 0⟩, ⟨1, 0⟩, ⟨2, 0⟩, ⟨3, 0⟩⟩ : CubicBez Rat)) ⟨-4, 3⟩ 1).distance_sq = 25 := by
+  decide +kernel
+
+/-- `to_quads` of a concrete cubic over ℚ (here `n = 1`: the `Rat` stand-in for `powf` is the identity and the error
+    term vanishes), and the parameter ranges of the pieces -/
+example : (CubicBez.to_quads (⟨⟨0, 0⟩, ⟨1, 0⟩, ⟨2, 0⟩, ⟨3, 0⟩⟩ : CubicBez Rat) 1).map (fun x => (x.1, x.2.1))
+    = [(0, 1)] := by decide +kernel
+
 end Kurbo
